@@ -9,13 +9,15 @@ pub trait TreapItemSized {
     fn size(&self) -> usize;
 }
 
-static mut RNG: Rng = Rng::from_seed(42);
+thread_local! {
+    // one generator per thread: nodes may be created on several threads at once
+    static RNG: std::cell::RefCell<Rng> = std::cell::RefCell::new(Rng::from_seed(42));
+}
 
 type Priority = u32;
 
-#[allow(static_mut_refs)]
 fn gen_priority() -> Priority {
-    unsafe { RNG.next_raw() as Priority }
+    RNG.with(|rng| rng.borrow_mut().next_raw() as Priority)
 }
 
 pub struct TreapNode<T> {
